@@ -64,7 +64,9 @@ let run_val (id : string) (fields : t list) : string =
              match M.spec_valid (re_match rx) fuel_big env (M.den i) with
              | Some true -> "V" | Some false -> "I" | None -> "F") insts in
            (* informational: does the Resolved satisfy the rank condition of val/Terminates.v (no chain of in-place calls closes)? *)
-           let rank = if List.length env.M.e_nodes > 80 then "skipped" else if M.rank_auto env then "1" else "0" in
+           (* (quick tier only: the thorough tier runs 40 times as many cases) *)
+           let rank = if Sys.getenv_opt "VERIF_RANK" <> Some "1" || List.length env.M.e_nodes > 80 then "skipped"
+                      else if M.rank_auto env then "1" else "0" in
            Printf.sprintf "%s unm=ok res=ok calls=%s v=%s spec_v=%s%s model_rank=%s" id
              (String.concat "," (List.sort compare (List.map ints_of_str calls))) (String.concat "" vs) (String.concat "" sp)
              (if rx.miss > 0 then Printf.sprintf " rxmiss=%d" rx.miss else "") rank
